@@ -717,8 +717,20 @@ class Interp:
         if m:
             lo, hi = INT_RANGE[m.group(1)]
             return lo if m.group(2) == 'MIN' else hi
+        m = re.fullmatch(r'(?:[\w:]*::)?Option::<.*>::None', t)
+        if m:
+            return Var('None', (), 'Option')
         if t in self.consts:
             return self.consts[t]
+        # crate-level constants of the dump: `const NAME: TY = const VALUE;` (looked up by their last path segments)
+        from . import mir as _mir
+        key = t.split('::')[-1]
+        hits = [(k_, v_) for k_, v_ in _mir.SIMPLE_CONSTS.items() if k_ == t or k_.split('::')[-1] == key and (t.endswith(k_) or k_.endswith(t) or '::' not in k_)]
+        if len(hits) == 1:
+            ty, val = hits[0][1]
+            return self.eval_const(val if re.search(r'_[ui]\d|_[ui]size|f64$|^true$|^false$', val) else val, st)
+        if len({v_ for _k, v_ in hits}) == 1 and hits:
+            return self.eval_const(hits[0][1][1], st)
         raise Unsupported('const %s' % t)
 
     consts = {}
@@ -871,6 +883,10 @@ class Interp:
             return b_not(to_z3(a) == to_z3(b)) if is_z3(a) or is_z3(b) else (a != b)
         if op in ('BitAnd', 'BitOr', 'BitXor', 'Shl', 'Shr') and isinstance(a, int) and isinstance(b, int):
             return {'BitAnd': a & b, 'BitOr': a | b, 'BitXor': a ^ b, 'Shl': a << b, 'Shr': a >> b}[op]
+        if op in ('Shr', 'Shl', 'ShrUnchecked', 'ShlUnchecked') and isinstance(b, int) and 0 <= b < 128 and is_z3(a) and a.sort() == z3.IntSort():
+            # mathematical reading: arithmetic shift right = floor division by 2^b; shift left = multiplication (wrap-around outside the claim:
+            # Shl on a symbolic value is only accepted for unchecked / checked shifts whose overflow the MIR asserts separately)
+            return a / (2 ** b) if op.startswith('Shr') else a * (2 ** b)
         raise Unsupported('binop %s on %r %r' % (op, a, b))
 
     # ------------------------------------------------------------------ execution
